@@ -35,6 +35,7 @@ type Config struct {
 	AtomicsVisible bool
 	DeadlockOK     bool
 	SleepSets      bool
+	LazyArrive     bool     // a thread that completed a visible operation does not run on to its next one by itself: "arriving" there is a schedulable step (exposes windows in which a thread is not yet waiting: non-blocking sends, TryLock)
 	NoSched        []string // package-level mutexes ("pkgpath.var") whose uncontended Lock/Unlock are not scheduling points
 	Silence        []string
 	NoInit         []string
@@ -135,6 +136,8 @@ func (c *Config) apply(opts []string) error {
 			c.AtomicsVisible = v == "1" || v == "true" || v == "visible"
 		case "nosched":
 			c.NoSched = append(c.NoSched, strings.Split(v, ",")...)
+		case "lazyarrive":
+			c.LazyArrive = v == "1" || v == "true"
 		case "sleepsets":
 			c.SleepSets = v == "1" || v == "true"
 		case "deadlockok":
